@@ -813,7 +813,7 @@ def oracle(case, obs):
                     # finding caller-id-respelled-replaced (fixed in /repo by 2323115), enforced: HTTP header names are
                     # case-insensitive, an id under any spelling is the caller's id.  The number the replacement used is
                     # accounted for here so that one cause gives one signature
-                    out.append((RESPELLED_SIG, f"thread {i} request {j}: caller supplied {h!r}, sent {v!r} (and a sequence number was used)"))
+                    out.append((RESPELLED_SIG, f"thread {i} request {j}: caller supplied {h!r}, sent {v!r} (the caller's id was replaced or dropped)"))
                     generated.append((i, j, v))
             else:
                 if case["en"]:
@@ -892,29 +892,31 @@ TECHNIQUE = ("Coq proof: an invariant of a small-step machine (shared lock + cou
              "opcode-level scheduler (sys.settrace + f_trace_opcodes, lock replaced by a non-blocking proxy); the logged order of shared "
              "accesses is the model's schedule and the model must reproduce every access kind, every X-request-id seen by the opener "
              "and the final counter.  Independent oracle on the observed headers: distinct ids, numbers c0..c0+n-1, caller ids unchanged.")
-LEVEL_TEXT = ("Full at model level, for ALL schedules / thread counts / request mixes / start values (28 closed statements, no axioms): "
+LEVEL_TEXT = ("Full at model level, for ALL schedules / thread counts / request mixes / start values (32 closed statements, no axioms): "
               "unique_gapfree (+ _every_prefix, + _any_program for every program passing well_locked): in every state of every "
               "interleaving the numbers sent are pairwise distinct and, with those of threads between lock release and send, are exactly "
               "c0..c0+k-1, the counter being c0+k whenever the lock is free (no repeat, no gap, no lost update); gapfree_at_rest (k = number "
-              "of requests WITHOUT a caller id: supplied ids consume nothing); every_request_answered (per request: caller id under the "
-              "documented key -> the caller's headers are sent and no number used, otherwise the id is fmt(n); no request raises); "
-              "caller_id_sent_unchanged (value under 'X-Request-ID', with no other spelling beside it, is the value sent -- any value, "
-              "also the empty string); id_injective (for ALL n, m >= 0, unbounded, across connection parts: the format read from the "
+              "of requests WITHOUT a caller id: supplied ids consume nothing); every_request_answered (per request: caller id under ANY "
+              "spelling of the header name -> the caller's headers are sent and no number used, otherwise the id is fmt(n); no request "
+              "raises); caller_id_sent_unchanged (a value under any upper/lower-case spelling of 'X-Request-ID' is recognised and is the "
+              "value sent -- any value, also the empty string), spellings_agree (do_request's name.lower() test and urllib's "
+              "capitalize() recognise the same names), supplied_id_last_spelling_sent (several spellings in one dict: the caller's value "
+              "under the LAST one is sent, urllib keeps one header per capitalised name), not_supplied_no_spelling; id_injective (for ALL n, m >= 0, unbounded, across connection parts: the format read from the "
               "source -- separator, widths, modulus are generated constants, obligation sep_ok -- is injective because its decimal tail "
               "decodes to n) hence ids_pairwise_distinct and generated_values_distinct (the header values the opener saw); ids_disabled; "
               "derived_connections_share_impl (every wrapper at any depth uses its root's lock and counter, rule generated from "
               "_HttpConnBase.__init__); liveness: no_deadlock (some thread can always move), can_always_finish (from every reachable "
               "state, ids on or off, an effective continuation ends with all requests sent), effective_schedules_finish + "
               "steps_are_bounded (every schedule that keeps scheduling runnable threads finishes within steps_left steps); "
-              "lost_update_without_lock (sanity: the same program without Acquire/Release duplicates number 0) and 10 non-vacuity examples.  "
+              "lost_update_without_lock (sanity: the same program without Acquire/Release duplicates number 0) and 11 non-vacuity examples.  "
               "Only tested (correspondence + oracle, ~900 schedules quick / ~9000 thorough): that the model is the code -- CPython "
               "switches threads only between bytecodes and threading.Lock is a mutex; the request path outside the id section "
               "(RequestArguments copying the caller's dict, adapters, bodies, urllib's header capitalisation) leaves the header alone; "
-              "connections derived while others are in use; one headers dict object shared by many requests.  Not a theorem and decided by "
-              "reading: a caller id under ANOTHER spelling of the header name ('x-request-id') is replaced and uses a number "
-              "(other_spelling_is_replaced, proved of the model, reproduced on the code) -- finding caller-id-respelled-replaced, "
-              "enforced by the oracle once registered in KNOWN_FINDINGS.json; uniqueness is claimed for generated ids only (a caller may "
-              "supply the same id twice).")
+              "connections derived while others are in use; one headers dict object shared by many requests.  Finding "
+              "caller-id-respelled-replaced (an id under another spelling such as 'x-request-id' was replaced and used a number) is FIXED "
+              "in /repo by 2323115; the model follows the fixed code (other_spelling_passed_on), the oracle enforces the signature "
+              "strictly, regression cases in corpus/C16/regression_respelled.json.  Header names are ASCII (str.lower/capitalize modelled "
+              "on ASCII).  Uniqueness is claimed for generated ids only (a caller may supply the same id twice).")
 LEVEL_NOTE = ("Trusted: Coq kernel + vm_compute; CPython's thread model (one thread runs at a time, switches at bytecode boundaries; "
               "Lock.acquire on a held lock blocks; `with` releases); the ast extractor that turns _generate_request_id / do_request into "
               "impl_prog and constants (fail closed: any unrecognised statement, further use of the counter/lock/generator anywhere in "
